@@ -346,7 +346,7 @@ func c06Crash(files []*sFile, hist []sAction) (enabled bool, viol, class string,
 	simRun(files, hist, func(s *sim, _ bool) vh.HistResult {
 		enabled = true
 		ops2 = s.steps[len(s.steps)-1].Ops2
-		viol, class = c06AfterCrash(s)
+		viol, class = crashOracle(s)
 		if os.Getenv("VERIF_TRACE") != "" {
 			fmt.Println(s.trace())
 			fmt.Println(s.w.tree())
@@ -455,11 +455,18 @@ func TestC06(t *testing.T) {
 		fmt.Sprintf("crash-free histories up to length %d over: file a (renamed to x/a, 2 parts), file b (1 part, predecessor a); parts received up to twice in any order, one corrupted part, one poll, clock +11 s, CleanNow, orderly restart; for every transition the receiver dies before each file-system mutation of the step and at rest after it (k-th mutation enumerated, not sampled), and (quick: histories up to length 3; thorough: all) again before each mutation of the recovery that follows; then real Recover(), Scan, and an ideal resumption", depth))
 }
 
+// crashOracle judges the state after crash(es), recovery and an ideal resumption.
+var crashOracle = c06AfterCrash
+
 func runC06(t *testing.T, partName string, files []*sFile, alphabet func([]sAction) []sAction, depth int, keep bool, bound string) {
+	runCrashPoints(t, "C06", partName, files, alphabet, depth, keep, bound)
+}
+
+func runCrashPoints(t *testing.T, prop, partName string, files []*sFile, alphabet func([]sAction) []sAction, depth int, keep bool, bound string) {
 	stT = t
 	simKeep = keep
 	defer func() { simKeep = false }()
-	rep := vh.NewReport("C06", partName)
+	rep := vh.NewReport(prop, partName)
 	defer rep.Write()
 	var rc c06Replay
 	if vh.ReplaySpec(&rc) {
